@@ -30,6 +30,23 @@ CHECKS = {
         "Trusts the library parser as the inverse (its grouping is decided separately by C05) and the structural decoder.",
         "DESIGN.md §6 C13",
     ),
+    "C10": (
+        "exhaustive atom-sequence enumeration + token mutation + Hypothesis text + long inputs + atheris/libFuzzer (thorough); outcome-class oracle and determinism",
+        "All sequences of up to 3 (thorough: 4) atoms from a 58-atom alphabet covering every token class are "
+        "parsed exhaustively; mutated valid filters, Unicode text and 24 families of 64 KB repetitive inputs "
+        "are added, and the thorough tier runs a coverage-guided atheris campaign over atom sequences. Each "
+        "outcome must be an AST node or one of the four library exceptions, and equal on re-parse.",
+        "Termination is only bounded (120 s watchdog = inconclusive). Strings longer than 64 KB and atom sequences longer than 4 are only sampled.",
+        "DESIGN.md §6 C10",
+    ),
+    "C11": (
+        "exhaustive enumeration of (name, arity, style, argument kind) against an independent copy of the OData function table",
+        "The whole finite domain the property quantifies over (33 built-ins + ~100 near-miss/custom names x 0..5 "
+        "arguments x positional/named x 8 argument patterns, ~11 000 calls) is enumerated; accept/reject, the "
+        "decoded call and the exception payload are predicted from the harness's own table.",
+        "Trusts the hand-copied table in vp/spec_tables.py; argument counts above 5 are not enumerated.",
+        "DESIGN.md §6 C11",
+    ),
 }
 
 ALL = ["C%02d" % i for i in range(1, 21)]
